@@ -34,6 +34,12 @@ def run_config(cfg):
     os.makedirs(recdir)
     os.environ['LV_RECDIR'] = recdir
     U.PARENT_MARKER = 'mutated-by-parent'
+    stop_helper = threading.Event()
+    helper = None
+    if cfg.get('helper_thread'):
+        # the caller is a multi-threaded program: an idle thread is alive while run_tasks runs
+        helper = threading.Thread(target=stop_helper.wait, daemon=True)
+        helper.start()
     try:
         ctx = cfg['context']
         lab = Lab(storage=os.path.join(d, 'store'), runner_backend=cfg['backend'], max_workers=cfg['max_workers'],
@@ -67,6 +73,9 @@ def run_config(cfg):
         return dict(recs=recs, keys=keys, stored=stored, want_ctx=want_ctx, n_results=len(res), leaked=leaked,
                     values_ok=all(res[t] == ('N', t.label, (('N', t.deps[0].label, ()), ('N', t.deps[1].label, ()))) for t in tops))
     finally:
+        stop_helper.set()
+        if helper is not None:
+            helper.join(5)
         os.environ.pop('LV_RECDIR', None)
         U.PARENT_MARKER = 'import-time'
         shutil.rmtree(d, ignore_errors=True)
@@ -86,7 +95,8 @@ def run(prop, report, tier, seed, replay=None):
                         continue
                     cfgs.append(dict(backend=b, max_workers=mw, filter=filt, n=2 if b == 'spawn' else rng.randint(2, 4),
                                      context={'a': rng.randint(0, 9), 'k0': 'x', 'k1': [1, 2], 'other': rng.random(),
-                                              'secret': f'SENTINEL-{rng.randrange(10 ** 9)}'}))
+                                              'secret': f'SENTINEL-{rng.randrange(10 ** 9)}'},
+                                     helper_thread=(len(cfgs) % 2 == 1)))
     dist = Counter()
     samples = []
     baseline = {}
